@@ -54,6 +54,11 @@ def sources(fn):
             k = ASSERT_KINDS.get(t[3])
             if k:
                 hit = (k, t[3], t[6], t[7])
+            elif t[3] == "Overflow" and _overflow_op(fn, t) == "Sub":
+                # unsigned subtraction: underflow panics in builds with overflow checks and wraps otherwise,
+                # after which the huge value typically sizes a slice/allocation; additions/multiplications of
+                # in-memory sizes are not counted (stated assumption: 64-bit usize)
+                hit = ("sub", "SubWithOverflow", t[6], t[7])
         if hit:
             kind, what, line, exp = hit
             base = "%s:%s" % (kind, what)
@@ -61,6 +66,38 @@ def sources(fn):
             counts[base] = n + 1
             out.append(("%s#%d" % (base, n), kind, what, i, line, exp))
     return out
+
+
+def _overflow_op(fn, t):
+    c = t[1]
+    if c[0] in ("c", "m"):
+        for d in cfg.graph(fn).defs().get(c[1][0], []):
+            if d[0] == "stmt" and d[3][0] == "bin":
+                return d[3][1].replace("WithOverflow", "")
+    return None
+
+
+def sub_guarded(db, fn, bb):
+    """The `a - b` whose overflow assertion ends block bb is dominated by a branch establishing a >= b."""
+    t = fn["blocks"][bb]["t"]
+    c = t[1]
+    if c[0] not in ("c", "m"):
+        return False
+    a = b = None
+    for d in cfg.graph(fn).defs().get(c[1][0], []):
+        if d[0] == "stmt" and d[3][0] == "bin" and d[3][1].startswith("Sub"):
+            a = cfg.nshow(cfg.peel(cfg.expr_operand(fn, d[3][2])))
+            b = cfg.nshow(cfg.peel(cfg.expr_operand(fn, d[3][3])))
+    if a is None:
+        return False
+
+    def ge(f):
+        if f[0] != "cmp":
+            return False
+        l, r = cfg.nshow(cfg.peel(f[2])), cfg.nshow(cfg.peel(f[3]))
+        return (f[1] in ("Ge", "Gt") and l == a and r == b) or (f[1] in ("Le", "Lt") and l == b and r == a)
+    ok, allow, _ = rules.dom_check(db, fn, [bb], ge)
+    return bool(ok and allow)
 
 
 def strip_ty(t):
@@ -120,6 +157,8 @@ def run_panic(ctx, entries_patterns, in_scope, review, label, floor_fns, floor_s
                 cls = ("DEBUG", "debug assertion: compiled out of release builds", None)
             else:
                 cls = review.lookup(f["key"], skey)
+                if cls is None and kind == "sub" and sub_guarded(db, f, bb):
+                    cls = ("SAFE", "dominated by a comparison establishing minuend >= subtrahend", None)
                 if cls is None and auto:
                     a = auto(f, (skey, kind, what, bb, line, exp))
                     if a:
